@@ -134,7 +134,7 @@ def gen(rng, i, tier):
     else:
         form = "plain"
     return {"kind": kind, "z": z, "table": tab, "qseed": rng.randrange(1 << 30), "const": const,
-            "nq": 40 if tier == "quick" else 60, "axis_form": form, "numtype": numtype, "one_object": i % 3 != 0, "plot_first": i % 4 == 1,
+            "nq": 40 if tier == "quick" else 60, "axis_form": form, "numtype": numtype, "one_object": i % 3 != 0, "plot_first": i % 4 == 1, "mux_fallback": i % 2 == 1,
             "plot3d": i % 8 == 1}
 
 
@@ -289,12 +289,19 @@ def run(ctx, case):
         neg = rng.random() < 0.3
         V = -vi if neg else vi
         spec = probe_spec(kind, z, raw_tab, V, io)
-        if case.get("one_object", True):
+        if case.get("one_object", True) or (kind == "PMux" and case.get("mux_fallback")):
             # ONE tabulated component object serves every probe system of the case (a part definition re-used across
             # what-if systems): a lookup must not depend on the lookups made before it
             def _mk():
-                so_ = ns.System("probe", ns.KINDS["Source"]("S", vo=V))
-                so_.add_comp("S", comp=comp)
+                if kind == "PMux" and case.get("mux_fallback"):
+                    # the mux runs from its SECOND input (the first one is a 0 V source): the table is read at the
+                    # voltage of the input that feeds the mux
+                    so_ = ns.System("probe", ns.KINDS["Source"]("S0", vo=0.0))
+                    so_.add_source(ns.KINDS["Source"]("S", vo=V))
+                    so_.add_comp(["S0", "S"], comp=comp)
+                else:
+                    so_ = ns.System("probe", ns.KINDS["Source"]("S", vo=V))
+                    so_.add_comp("S", comp=comp)
                 so_.add_comp("X", comp=ns.KINDS["ILoad"]("L", ii=io))
                 return so_
 
